@@ -9,7 +9,9 @@ def _(edges):
     # consumers of a dataset are exactly the sink tasks of the edges that start at it
     ensures(forall(DatasetId, str, lambda d, t: (d in rv and t in rv[d]) == exists(int, lambda i: 0 <= i and i < len(edges) and edges[i].source == d and edges[i].sink_task == t)),
             tag="consumers-exactly-as-edges", top=True)
-    invariant(0, forall(DatasetId, str, lambda d, t: (d in rv and t in rv[d]) == exists(int, lambda i: 0 <= i and i < loop0_index and edges[i].source == d and edges[i].sink_task == t)))
+    # the two directions separately (each is a simpler obligation than the equivalence)
+    invariant(0, forall(int, lambda i: implies(0 <= i and i < loop0_index, edges[i].source in rv and edges[i].sink_task in rv[edges[i].source])))
+    invariant(0, forall(DatasetId, str, lambda d, t: implies(d in rv and t in rv[d], exists(int, lambda i: 0 <= i and i < loop0_index and edges[i].source == d and edges[i].sink_task == t))))
     # the consumer sets are private to the view: one per dataset, created by the view
     invariant(0, forall(DatasetId, lambda d: implies(d in rv, fresh(rv[d]) and not same(rv[d], rv))))
     invariant(0, forall(DatasetId, DatasetId, lambda d1, d2: implies(d1 in rv and d2 in rv and d1 != d2, not same(rv[d1], rv[d2]))))
@@ -18,7 +20,7 @@ def _(edges):
 
 
 @spec
-def sink_input(e):
+def designator(e):
     return e.sink_input_kw if e.sink_input_kw is not None else e.sink_input_ps
 
 
@@ -32,16 +34,16 @@ def well_formed_edge(e):
 def _(edges):
     rv = result()
     # the inputs of a task are exactly the sink designators of the edges that end at it ...
-    ensures(forall(str, Any, lambda t, p: (t in rv and p in rv[t]) == exists(int, lambda i: 0 <= i and i < len(edges) and edges[i].sink_task == t and sink_input(edges[i]) == p)),
+    ensures(forall(str, Any, lambda t, p: (t in rv and p in rv[t]) == exists(int, lambda i: 0 <= i and i < len(edges) and edges[i].sink_task == t and designator(edges[i]) == p)),
             tag="inputs-exactly-as-edges", top=True)
     # ... and each is fed by the source of (the last) such edge
-    ensures(forall(str, Any, lambda t, p: implies(t in rv and p in rv[t], exists(int, lambda i: 0 <= i and i < len(edges) and edges[i].sink_task == t and sink_input(edges[i]) == p
+    ensures(forall(str, Any, lambda t, p: implies(t in rv and p in rv[t], exists(int, lambda i: 0 <= i and i < len(edges) and edges[i].sink_task == t and designator(edges[i]) == p
                                                                                     and rv[t][p] == edges[i].source))),
             tag="input-source-as-edge-states", top=True)
-    raises("TypeError", exists(int, lambda i: 0 <= i and i < len(edges) and not well_formed_edge(edges[i])), tag="ill-formed-edge-rejected")
+    raises(TypeError, exists(int, lambda i: 0 <= i and i < len(edges) and not well_formed_edge(edges[i])), tag="ill-formed-edge-rejected")
     invariant(0, forall(int, lambda i: implies(0 <= i and i < loop0_index, well_formed_edge(edges[i]))))
-    invariant(0, forall(str, Any, lambda t, p: (t in rv and p in rv[t]) == exists(int, lambda i: 0 <= i and i < loop0_index and edges[i].sink_task == t and sink_input(edges[i]) == p)))
-    invariant(0, forall(str, Any, lambda t, p: implies(t in rv and p in rv[t], exists(int, lambda i: 0 <= i and i < loop0_index and edges[i].sink_task == t and sink_input(edges[i]) == p
+    invariant(0, forall(int, lambda i: implies(0 <= i and i < loop0_index, edges[i].sink_task in rv and designator(edges[i]) in rv[edges[i].sink_task])))
+    invariant(0, forall(str, Any, lambda t, p: implies(t in rv and p in rv[t], exists(int, lambda i: 0 <= i and i < loop0_index and edges[i].sink_task == t and designator(edges[i]) == p
                                                                                          and rv[t][p] == edges[i].source))))
     invariant(0, forall(str, lambda t: implies(t in rv, fresh(rv[t]) and not same(rv[t], rv))))
     invariant(0, forall(str, str, lambda t1, t2: implies(t1 in rv and t2 in rv and t1 != t2, not same(rv[t1], rv[t2]))))
